@@ -384,6 +384,30 @@ def near_miss(rnd):
             (k1, "1+d" if beyond_end else "-d", -(d.denominator.bit_length() - 1), k2), "n1": n1, "n2": n2, "planted": None}
 
 
+def close_crossings(rnd):
+    """two genuine transversal crossings a small distance 2d apart (d = 2^-12 .. 2^-15, far above the de-duplication
+    tolerance 2^-36 and above the property's separation limit 2^-16): a horizontal segment against the parabola
+    y = a ((x - c)^2 - d^2) with slope 2 a d at the crossings, written as an exact quadratic net; either order,
+    optionally sheared by an exact integer map"""
+    m = rnd.choice([12, 13, 14, 15])
+    d = Fr(1, 2 ** m)
+    a = Fr(2 ** rnd.choice([m - 6, m - 5, m - 4]))                # slope 2 a d = 2^-5 .. 2^-3
+    c = Fr(rnd.choice([16, 12, 20, 11, 23]), 32)
+    # y(x) = a (x - c)^2 - a d^2 on x in [0, 1]: Bernstein coefficients of a quadratic in x
+    f = lambda x: a * ((x - c) ** 2 - d * d)      # noqa: E731
+    y0, y2 = f(Fr(0)), f(Fr(1))
+    y1 = 2 * f(Fr(1, 2)) - (y0 + y2) / 2
+    par = [[Fr(0), Fr(1, 2), Fr(1)], [y0, y1, y2]]
+    seg = [[Fr(0), Fr(1)], [Fr(0), Fr(0)]]
+    k = rnd.choice([0, 0, 1, -1])
+    if k:
+        par = [[x + k * y for x, y in zip(par[0], par[1])], par[1]]
+        seg = [[x + k * y for x, y in zip(seg[0], seg[1])], seg[1]]
+    pair = (par, seg) if rnd.random() < 0.5 else (seg, par)
+    return {"kind": "close-crossings", "tag": "segment x parabola, two crossings 2^-%d apart, slope 2^%d" % (m - 1, int(a * 2 * d).bit_length() - 1 if a * 2 * d >= 1 else -((1 / (a * 2 * d)).numerator.bit_length() - 1)),
+            "n1": [list(r) for r in pair[0]], "n2": [list(r) for r in pair[1]], "planted": None}
+
+
 def all_pairs(rnd, tier="quick", max_deg=8):
     """the generated case list of C02 / C03 (without the zoo); max_deg bounds random and planted degrees"""
     thorough = tier == "thorough"
@@ -400,6 +424,7 @@ def all_pairs(rnd, tier="quick", max_deg=8):
     out += [planted_tangency(rnd, min(md, 6)) for _ in range(600 if thorough else 160)]
     out += [overlapping_arcs(rnd) for _ in range(300 if thorough else 80)]
     out += [near_miss(rnd) for _ in range(200 if thorough else 60)]
+    out += [close_crossings(rnd) for _ in range(120 if thorough else 40)]
     return out
 
 
